@@ -43,7 +43,7 @@ SITES: List[Tuple[str, Tuple[str, ...], str]] = [
     ("clematis.engine.stages.t2.quality:apply_quality", ("quality_fuse",), "lexical fusion"),
     ("clematis.engine.stages.t2.quality:apply_quality", ("quality_mmr", "quality_mmr_fallback"), "MMR"),
     ("clematis.engine.stages.t2.quality:apply_quality", ("_emit_quality_trace",), "quality shadow trace"),
-    ("clematis.engine.apply:apply_changes", ("invalidate_namespace",), "cache invalidation"),
+    ("clematis.engine.apply:_invalidate_on_apply", ("invalidate_namespace",), "cache invalidation"),
     ("clematis.engine.apply:apply_changes", ("apply_fn", "apply_deltas"), "store apply errors"),
     ("clematis.engine.snapshot:write_snapshot", ("_write_sidecar_meta",), "snapshot sidecar write"),
     ("clematis.engine.snapshot:_write_lines", ("_write_sidecar_meta",), "snapshot sidecar write"),
